@@ -105,8 +105,8 @@ Qed.
 
 (* ---------------------------------------------------------------- 4. cryptographic use is gated *)
 (* gate s o (Lifecycle.Spec): Encrypt/Decrypt -> SymmetricKey, Active, Encrypt/Decrypt bit; Sign -> PrivateKey,
-   Active, Sign bit; SignatureVerify -> PublicKey, Active, Verify bit; MAC -> Active, MAC Generate bit (no type:
-   see below); Get with wrapping -> wrapping key SymmetricKey, Active, Wrap Key bit; DeriveKey -> at least one base
+   Active, Sign bit; SignatureVerify -> PublicKey, Active, Verify bit; MAC -> SymmetricKey or
+   SecretData, Active, MAC Generate bit; Get with wrapping -> wrapping key SymmetricKey, Active, Wrap Key bit; DeriveKey -> at least one base
    object, every base object of a derivable type with the Derive Key bit. *)
 Theorem crypto_gated : forall cok s o s', step cok s o = (OK, s') -> gate s o.
 Proof. exact LifecycleProofs.crypto_gated. Qed.
@@ -141,41 +141,26 @@ Example crypto_gated_nonvacuous :
   /\ step true s (Encrypt 3 true) = (Refused RType PermissionDenied, s).
 Proof. vm_compute. repeat split. Qed.
 
-(* MAC and "the right kind": the code has no object-type guard in _process_mac.  Full-strength clause: *)
-Definition mac_right_kind_statement : Prop :=
-  forall cok s u alg data s', step cok s (MAC u alg data) = (OK, s') ->
-  exists ob, lookup u (objs s) = Some ob /\ mac_kind (oty ob).
-
-(* it holds when the addressed object is not a public / private / split key or a certificate ... *)
-Theorem crypto_gated_mac_partial : forall cok s u alg data s',
-  (forall ob, lookup u (objs s) = Some ob ->
-     oty ob <> PublicKey /\ oty ob <> PrivateKey /\ oty ob <> SplitKey /\ oty ob <> Certificate) ->
-  wf_typed s ->
+(* MAC and "the right kind" (SymmetricKey or SecretData, Lifecycle.Spec.mac_kind).  Before /repo commit d24c06a
+   _process_mac had no object-type guard and this clause was refuted (finding C04-mac-wrong-kind-*, now fixed);
+   it is part of [gate] above and stated separately here at full strength. *)
+Theorem mac_right_kind : forall cok s u alg data s',
   step cok s (MAC u alg data) = (OK, s') ->
   exists ob, lookup u (objs s) = Some ob /\ mac_kind (oty ob).
-Proof. exact LifecycleProofs.mac_right_kind_partial. Qed.
-Print Assumptions crypto_gated_mac_partial.
+Proof. exact LifecycleProofs.mac_right_kind. Qed.
+Print Assumptions mac_right_kind.
 
-(* ... and is false in general: known finding C04-mac-wrong-kind-* (witness: Register a private key with
-   MAC_GENERATE, Activate, MAC) *)
-Theorem crypto_gated_mac_refuted :
-  exists cok s u alg data s', wf s /\ wf_typed s /\ step cok s (MAC u alg data) = (OK, s') /\
-    exists ob, lookup u (objs s) = Some ob /\ oty ob = PrivateKey.
-Proof. exact LifecycleProofs.mac_right_kind_refuted. Qed.
-Print Assumptions crypto_gated_mac_refuted.
+Example mac_right_kind_nonvacuous :
+  let s := exec (empty_store 1) [(Register SecretData 128, true); (Register PrivateKey 128, true); (Activate 1, true); (Activate 2, true)] in
+  step true s (MAC 1 true true) = (OK, s) /\ step true s (MAC 2 true true) = (Refused RType PermissionDenied, s).
+Proof. vm_compute. split; reflexivity. Qed.
 
-Theorem mac_right_kind_fails : ~ mac_right_kind_statement.
-Proof. exact LifecycleProofs.mac_right_kind_fails. Qed.
-Print Assumptions mac_right_kind_fails.
-
-Example crypto_gated_mac_partial_nonvacuous :
-  let s := exec (empty_store 1) [(Register SecretData 128, true); (Activate 1, true)] in
-  wf_typed s /\ step true s (MAC 1 true true) = (OK, s)
-  /\ (forall ob, lookup 1 (objs s) = Some ob -> oty ob <> PublicKey /\ oty ob <> PrivateKey /\ oty ob <> SplitKey /\ oty ob <> Certificate).
-Proof.
-  split. apply exec_typed, typed_empty. split. vm_compute. reflexivity.
-  intros ob L. vm_compute in L. inversion L; subst. simpl. repeat split; discriminate.
-Qed.
+(* Get with a wrapping specification, in full: wrapping key gate and kind of the wrapped object *)
+Theorem get_wrap_gated : forall cok s u w r s',
+  step cok s (GetWrap u w) = (r, s') -> entered r ->
+  s' = s /\ usable s w SymmetricKey bWRAP_KEY /\ exists ob, lookup u (objs s) = Some ob /\ has_key_block (oty ob) = true.
+Proof. exact LifecycleProofs.get_wrap_gated. Qed.
+Print Assumptions get_wrap_gated.
 
 (* ---------------------------------------------------------------- 5. Destroy is refused for an Active object *)
 Theorem destroy_refused_when_active : forall cok s u ob,
